@@ -81,11 +81,28 @@ fn main() {
         let w = 1 + rng.u32r(0, 11);
         let al = rng.u32r(0, 2);
         let mut p = || json!([rng.i32(0, g - 1) * 2 - 3, rng.i32(0, g - 1) * 2 - 4]);
-        let shape = match k % 3 {
-            0 => json!({"k":"line","s":p(),"e":p()}),
-            1 => json!({"k":"triangle","v":[p(), p(), p()]}),
+        let shape = match k % 8 {
+            0 | 1 => json!({"k":"line","s":p(),"e":p()}),
+            2 | 3 => json!({"k":"triangle","v":[p(), p(), p()]}),
+            // wide strokes (also wider than the shape) on the closed and angular primitives
+            4 => {
+                let tl = p();
+                match (k / 8) % 4 {
+                    0 => json!({"k":"rect","r":[tl[0], tl[1], (k / 32) % 9, (k / 288) % 9]}),
+                    1 => json!({"k":"circle","tl":tl,"d":(k / 32) % 14}),
+                    2 => json!({"k":"ellipse","tl":tl,"size":[(k / 32) % 11, (k / 352) % 9]}),
+                    _ => json!({"k":"rrect","r":[tl[0], tl[1], (k / 32) % 10, (k / 320) % 8],"radii":[[2, 3], [(k / 32) % 5, 1], [0, 0], [4, 4]]}),
+                }
+            }
+            5 => {
+                let tl = p();
+                let kind = if (k / 8) % 2 == 0 { "arc" } else { "sector" };
+                let sw: i32 = [-400, -270, -135, -90, -30, 0, 45, 135, 200, 360][(k / 384) % 10] * 16;
+                let a0: i32 = (((k / 16) % 24) as i32 * 15 - 180) * 16;
+                json!({"k":kind,"tl":tl,"d":(k / 16) % 17,"a0":a0,"sw":sw})
+            }
             _ => {
-                let n = 2 + (k / 3) % 4;
+                let n = 2 + (k / 8) % 4;
                 let v: Vec<Value> = (0..n).map(|_| p()).collect();
                 json!({"k":"polyline","v":v,"off":[0, 0]})
             }
